@@ -53,7 +53,8 @@ def shards(tier):
             out.append({"kind": kind, "tier": tier, "n": n - 1, "first": None})
         else:
             out.append({"kind": kind, "tier": tier, "n": n, "first": None})
-    return out
+    from mc import harness
+    return harness.with_array_forms(out, tier, lambda sh: sh.get("first") is None and sh["kind"] != "strz")
 
 
 def okey(v):
